@@ -391,7 +391,44 @@ def std_correspondence(ctx, I, n, label="C07_std"):
                          % (cterm[:300], ref, cs[:30], final, list(s)), replay=dict(stream=list(s), chunks=cs, real=True, constraint=cterm))
                 break
             runs.append((cterm, s, cs, ev, snaps, mi))
+    runs += opentype_edge_runs(ctx, I)
     return model_compare(ctx, runs, label)
+
+
+def opentype_edge_runs(ctx, I):
+    """fixed witnesses (no random choice): OPEN sequences of the opentypes whose unslicers the model does NOT contain -- decimal,
+    reference, copyable, set-vocab, add-vocab -- at top level and inside a list, under no constraint / Any / a bounded list / a
+    ChoiceOf at the root / a ChoiceOf in a list slot.  What the real code does BEFORE such an unslicer exists is modelled (opentype
+    check, registry lookup, the AssertionError of setConstraint) and compared here; where the model abstains the run is counted as
+    abstained (marker event 99), never as an abandonment."""
+    from foolscap.constraint import ByteStringConstraint, Any
+    from foolscap.schema import ListOf, ChoiceOf, UnicodeConstraint
+    mk = [("none", lambda: None), ("any", lambda: Any()), ("list-bytes3", lambda: ListOf(ByteStringConstraint(3), maxLength=3)),
+          ("list-any", lambda: ListOf(Any(), maxLength=3)),
+          ("root-choice", lambda: ChoiceOf(ByteStringConstraint(3), UnicodeConstraint(3))),
+          ("list-choice", lambda: ListOf(ChoiceOf(ByteStringConstraint(3), UnicodeConstraint(3)), maxLength=3))]
+    bodies = {b"decimal": S(b"1.5"), b"reference": enc_int(0), b"copyable": S(b"no.such.Class"), b"set-vocab": enc_int(3) + S(b"hello"),
+              b"add-vocab": enc_int(3) + S(b"hello")}
+    out = []
+    for cname, f in mk:
+        for ot, body in sorted(bodies.items()):
+            for where in ("top", "in-list"):
+                if where == "top":
+                    s = tok(OPEN, 0) + S(ot) + body + tok(CLOSE, 0) + enc_int(7)
+                else:
+                    s = tok(OPEN, 0) + S(b"list") + tok(OPEN, 1) + S(ot) + body + tok(CLOSE, 1) + S(b"ab") + tok(CLOSE, 0) + enc_int(7)
+                for cs in ([len(s)], [1] * len(s)):
+                    cobj = f()
+                    cterm = "None" if cobj is None else "(Some %s)" % to_coq(cobj)
+                    ev, snaps, esc, mi = run_std(I, cobj, s, cs)
+                    ctx.case(["std-opentype-edge", cname, ot.decode(), where, len(cs)], nontrivial=True)
+                    ctx.hist("kind", "std-opentype-edge")
+                    if esc:
+                        ctx.fail("oracle/exception-escaped", "an exception escaped Banana.dataReceived (OPEN %s %s under %s): %s" % (ot.decode(), where, cname, esc),
+                                 replay=dict(stream=list(s), chunks=cs, real=True, constraint=cterm))
+                        continue
+                    out.append((cterm, s, cs, ev, snaps, mi))
+    return out
 
 
 def model_compare(ctx, runs, label, sig="correspondence/std-recv"):
